@@ -214,12 +214,27 @@ pub fn run(name: &str, args: &Args) -> Option<Report> {
         }
         "c08mt" => {
             for i in args.start..args.start + args.iters {
-                guarded(&mut rep, name, "C08", args.seed, i, |rep| mt::c08_release_schedule(args.seed, i, rep));
+                guarded(&mut rep, name, "C08", args.seed, i, |rep| mt::c08_release_schedule(args.seed, i, rep, false));
             }
         }
         "c11" => {
             for i in args.start..args.start + args.iters {
-                guarded(&mut rep, name, "C11", args.seed, i, |rep| mt::c11_schedule(args.seed, i, rep));
+                guarded(&mut rep, name, "C11", args.seed, i, |rep| mt::c11_schedule(args.seed, i, rep, false));
+            }
+        }
+        "c04free" => {
+            for i in args.start..args.start + args.iters {
+                guarded(&mut rep, name, "C04", args.seed, i, |rep| mt::c04_schedule(args.seed, i, rep, true));
+            }
+        }
+        "c08free" => {
+            for i in args.start..args.start + args.iters {
+                guarded(&mut rep, name, "C08", args.seed, i, |rep| mt::c08_release_schedule(args.seed, i, rep, true));
+            }
+        }
+        "c11free" => {
+            for i in args.start..args.start + args.iters {
+                guarded(&mut rep, name, "C11", args.seed, i, |rep| mt::c11_schedule(args.seed, i, rep, true));
             }
         }
         "c04" => {
@@ -227,7 +242,7 @@ pub fn run(name: &str, args: &Args) -> Option<Report> {
                 guarded(&mut rep, name, "C04", args.seed, 0, |rep| mt::c04_wrap_sweep(args.seed, rep));
             }
             for i in args.start..args.start + args.iters {
-                guarded(&mut rep, name, "C04", args.seed, i, |rep| mt::c04_schedule(args.seed, i, rep));
+                guarded(&mut rep, name, "C04", args.seed, i, |rep| mt::c04_schedule(args.seed, i, rep, false));
             }
         }
         _ => return None,
